@@ -339,9 +339,16 @@ def compare(d0, d1, what):
         if b is None:
             continue
         ident = {"serial": sn, "type": a["type"], "name": a["name"]}
+        # a block whose own assemNum differs from its assembly's BEFORE saving: FuelHandler._transferStationaryBlocks moves
+        # grid-plate blocks between the swapped assemblies without renaming them; the loader derives name and assemNum
+        # from the parent
+        par = d0.get(a["parent"]) if a["parent"] is not None else None
+        stale = (a["family"] == "Block" and par is not None and par["family"] == "Assembly"
+                 and a["params"].get("assemNum") != par["params"].get("assemNum"))
         for k in ("type", "name", "parent"):
             if a[k] != b[k]:
-                diffs.append((f"object-{k}", f"{what}: same {k}", {**ident, "before": a[k], "after": b[k]}))
+                key = "stale-block-identity" if (k == "name" and stale) else f"object-{k}"
+                diffs.append((key, f"{what}: same {k}", {**ident, "before": a[k], "after": b[k]}))
         if a["kids"] != b["kids"]:
             if sorted(a["kids"]) == sorted(b["kids"]):
                 diffs.append(("child-order", f"{what}: same child order", {**ident, "before": a["kids"][:8], "after": b["kids"][:8]}))
@@ -403,6 +410,8 @@ def compare(d0, d1, what):
                 continue        # recomputed on load: equal up to floating-point re-evaluation (1e-12 relative)
             if v != w:
                 key = "parameter"
+                if pn == "assemNum" and stale:
+                    key = "stale-block-identity"
                 if v is None and all(o["params"].get(pn) is None for o in d0.values() if o["type"] == a["type"]):
                     key = "all-none-column"     # every object of the class holds None: the column is not written at all
                 if (isinstance(v, tuple) and isinstance(w, tuple) and len(v) == 3 and len(w) == 3 and {v[0], w[0]} == {"i", "f"}
@@ -841,6 +850,7 @@ KNOWN_KEYS = {
     "child-order": "child-order-after-unsorted-edit",
     "coordinate-location-loads-as-index": "coordinate-location-in-gridded-parent-loads-as-index",
     "dimension-none-becomes-zero": "component-dimension-none-becomes-zero",
+    "stale-block-identity": "stationary-block-keeps-old-name-after-swap",
 }
 
 
@@ -1307,6 +1317,17 @@ def excluded_points(ctx, req, impl, cases):
         sort_requests(ctx, "c5g7", r, req, impl, cases)
         roundtrip_checks(ctx, "c5g7", o, r, ops, "f12", deep=False)
     ctx.count("excluded point: assemblies swapped, children no longer in locator order (F12)")
+    # swapAssemblies on an input with STATIONARY (grid plate) blocks: the blocks exchanged between the two assemblies keep
+    # the name and assemNum of the assembly they came from; the loader names every block after its parent
+    with silence(), contextlib.suppress(LoadFailed, WriteRejected):
+        o, r = load_fixture("axialExpansion")
+        objs = all_objects(r)
+        ai = [i for i, a in enumerate(objs) if isinstance(a, Assembly) and a.parent is r.core]
+        fuelHandlers.FuelHandler(o).swapAssemblies(objs[ai[0]], objs[ai[-1]])
+        ops = [["swapAssemblies", ai[0], ai[-1], None]]
+        refresh_derived(r)
+        roundtrip_checks(ctx, "axialExpansion", o, r, ops, "stationary", deep=False)
+    ctx.count("excluded point: assemblies with stationary blocks swapped (transferred blocks keep their old name)")
     # a parameter without default assigned on some but not all objects of its class
     with silence():
         o, r = load_fixture("smallest")
@@ -1866,7 +1887,7 @@ def multi_statepoint_stream(ctx, rng):
                 history.append(["w", [cycle, node, label], len(ops)])
                 # loads INTERLEAVED with the writes, through the object that is writing
                 if step > 0 and rng.random() < 0.6:
-                    for k in rng.sample(range(len(states)), min(2, len(states))):
+                    for k in rng.sample(range(len(states)), min(1 if len(d) > 1000 else 2, len(states))):
                         history.append(["l", list(states[k][0]), len(ops)])
                         load_via(db, k, "loaded between writes through the writing Database object")
             # an occupied address: the second write must be refused (and, below, must not have changed the statepoint)
@@ -1880,7 +1901,8 @@ def multi_statepoint_stream(ctx, rng):
             if len(states) >= 2:
                 # ONE long-lived object: latest first (B then A), in writing order, and the first one again (A, B, A)
                 n = len(states)
-                for k in list(range(n))[::-1] + (list(range(n)) if (ctx.thorough or fx == "smallest") else []) + [0]:
+                big = len(states[0][1]) > 1000
+                for k in list(range(n))[::-1] + (list(range(n)) if ((ctx.thorough and not big) or fx == "smallest") else []) + [0]:
                     history.append(["l", list(states[k][0]), len(ops)])
                     load_via(db, k, "loaded through the one long-lived Database object")
                 # delete an address and write ANOTHER state there; its neighbours (same cycle/node, other label) stay
@@ -1900,9 +1922,12 @@ def multi_statepoint_stream(ctx, rng):
                         kinds = layout_borne_edit(rng, o, r, ops)
                         for kd in kinds:
                             ctx.count(f"multi-statepoint edit between writes: {kd}")
-                        r.p.cycle, r.p.timeNode = cy, nd_
-                        refresh_derived(r)
-                        d = dump(r)
+                        try:
+                            r.p.cycle, r.p.timeNode = cy, nd_
+                            refresh_derived(r)
+                            d = dump(r)
+                        except Exception as e:  # noqa: BLE001 - the EDITS left a model the public API cannot evaluate
+                            raise WriteRejected("edited state invalid: " + type(e).__name__) from e
                         nneg = sum(1 for v in d.values() if isinstance(v.get("volume"), float) and v["volume"] < 0)
                         if nneg > NEG_BASELINE.get(fx, 0):
                             raise WriteRejected("negative component volume")
